@@ -5,6 +5,7 @@ import "strings"
 type propSpec struct {
 	Rules       []func(*Run)
 	Keep        []string // rule-id prefixes whose obligations belong to this property (empty: all)
+	Sites       map[string][]string // rule prefix -> substrings one of which the site must contain (narrowing shared rule functions)
 	Explanation string
 	Assumptions []string
 }
@@ -21,6 +22,24 @@ func (s propSpec) keeps(rule string) bool {
 	return rule == "anchors" || rule == "tables" || rule == "controls" || rule == "loader"
 }
 
+func (s propSpec) keepsSite(rule, site string) bool {
+	for pre, subs := range s.Sites {
+		if !strings.HasPrefix(rule, pre) {
+			continue
+		}
+		any := false
+		for _, sub := range subs {
+			if strings.Contains(site, sub) {
+				any = true
+			}
+		}
+		if !any {
+			return false
+		}
+	}
+	return true
+}
+
 type rl = []func(*Run)
 type kp = []string
 
@@ -32,15 +51,17 @@ var properties = map[string]propSpec{
 	"C05": {Rules: rl{ruleOwnerGuard, ruleAnswers, ruleSenderExcluded, ruleIDGenerator, ruleIDSources}, Keep: kp{"D1", "B5", "J1", "D3", "D2", "D5"}},
 	"C06": {Rules: rl{ruleLeaveComplete, ruleLeaveCallers, ruleModuleCleanup, ruleCascade, ruleDecoratorForward, ruleMutateRelay, ruleSnapshot, ruleSubscriptions, ruleStoreContracts}, Keep: kp{"E1", "E2", "E3", "E4", "E6", "E9", "A2", "C1", "C7", "S-UnsubscribeAll", "S-DeleteByEntity"}},
 	"C07": {Rules: rl{ruleLeaveComplete, ruleLeaveCallers, ruleRegistry, ruleIDGenerator}, Keep: kp{"E1", "E2", "E6", "E7", "D3"}},
-	"C08": {Rules: rl{ruleDecoratorForward, rulePBNil, ruleFunnelOnce, ruleGaugePair, ruleWaitFor, rulePanicContainment}, Keep: kp{"A2", "G1", "E5", "G5", "G6", "F4", "G2"}},
+	"C08": {Rules: rl{ruleDecoratorForward, rulePBNil, ruleFunnelOnce, ruleGaugePair, ruleWaitFor, rulePanicContainment, ruleClampSymmetry, ruleTaintAlloc}, Keep: kp{"A2", "G1", "E5", "G5", "G6", "F4", "G2", "G3", "G4"}},
 	"C09": {Rules: rl{ruleGuardedBy, ruleNoEscape, ruleLockOrder, ruleLockPairing, ruleSplitCriticalSection, ruleWaitFor}},
 	"C10": {Rules: rl{ruleIDGenerator, ruleStoreContracts, ruleSplitCriticalSection, ruleIDSources, ruleEntityActions, ruleRegistry}, Keep: kp{"D3", "D4", "E8a", "D5", "E7"}},
 	"C11": {Rules: rl{rulePBNil, ruleSnapshot, ruleAnswers, ruleOwnerGuard}, Keep: kp{"G1", "C11-pose", "B5", "B7", "D1"}},
 	"C12": {Rules: rl{ruleStoreContracts, ruleCascade, ruleErrorDiscipline, ruleSplitCriticalSection}, Keep: kp{"S-", "D4", "E4", "ERR", "E8a"}},
 	"C13": {Rules: rl{ruleNotifyGated, ruleSenderExcluded, ruleSubscriptions, ruleLeaveComplete}, Keep: kp{"C5", "C2", "S-", "E1"}},
 	"C14": {Rules: rl{ruleBroadcastShape, ruleSenderExcluded, ruleCustomMessage, ruleRelaySync}, Keep: kp{"C3", "J6", "C2", "H1", "H4", "C6"}},
+	"C15": {Rules: rl{ruleAuthGate}, Keep: kp{"I6"}},
 	"C16": {Rules: rl{ruleEntityActions, ruleSnapshot, ruleOwnerGuard, ruleModuleInit, ruleModuleCleanup}, Keep: kp{"H3", "S-", "D5", "C7", "D1", "J4", "J3", "E3"}},
 	"C17": {Rules: rl{ruleFlagWrap}},
-	"C18": {Rules: rl{ruleLatencyStart}, Keep: kp{"H2", "I2"}},
-	"C20": {Rules: rl{ruleModuleInit}, Keep: kp{"J3", "J4"}},
+	"C18": {Rules: rl{ruleLatencyStart, ruleLatencyReport, ruleMapOrderFree, ruleAnswers}, Keep: kp{"H2", "I1", "I2", "I3", "I4", "B1", "B2", "B4"}, Sites: map[string][]string{"B": {"HandleSignedLatency", "HandlePingResponse"}}},
+	"C19": {Rules: rl{ruleReceiptFlow, ruleAnswers}, Keep: kp{"I5", "B1", "B2", "B4"}, Sites: map[string][]string{"B": {"HandleReceipt"}}},
+	"C20": {Rules: rl{ruleModuleInit, ruleClampSymmetry, ruleGuardedBy}, Keep: kp{"J3", "J4", "G3", "F1"}, Sites: map[string][]string{"F1": {"RegularGrid", "State.SpatialPartition"}}},
 }
